@@ -108,7 +108,39 @@ class Plugin(BasePlugin):
             'a nested container and one read; distinct by canonical JSON.')
     assumptions = ['identities are CPython id()s of dict and list objects; tuples and immutable values carry none']
 
+    def gen_focus_proj_ops(self, rng):
+        """arrays whose ELEMENTS are containers (sub-documents, nested arrays) read through $slice /
+        $elemMatch projections, alone and next to plain inclusions / exclusions"""
+        docs = [{'_id': k, 't': 'x', 'a': [{'r': 1, 'w': [k]}, {'r': 2, 'w': []}, {'r': 1}][:rng.choice([1, 2, 3])],
+                 'm': [[1], [2, 3]], 'b': {'z': [{'q': 1}]}} for k in (1, 2)]
+        ops = [{'op': 'clock', 't': 0}, {'op': 'insert_many', 'docs': docs, 'ordered': True}]
+        for _ in range(rng.choice([1, 2, 3])):
+            field = rng.choice(['a', 'a', 'm'])
+            po = rng.choice([{'$slice': 1}, {'$slice': -1}, {'$slice': [1, 1]}, {'$slice': 5}]
+                            + ([{'$elemMatch': {'r': 1}}, {'$elemMatch': {'r': 2}}] if field == 'a' else []))
+            proj = {field: po}
+            r = rng.random()
+            if r < 0.3:
+                proj['t'] = 1
+            elif r < 0.45:
+                proj['b'] = 0
+            elif r < 0.55:
+                proj['_id'] = 0
+            k = rng.random()
+            if k < 0.7:
+                ops.append({'op': 'find', 'filter': rng.choice([{}, {'_id': 1}]), 'proj': proj, 'sort': [],
+                            'skip': 0, 'limit': 0})
+            else:
+                ops.append({'op': 'fam', 'kind': 'update', 'filter': {'_id': rng.choice([1, 2])}, 'sort': [],
+                            'proj': proj, 'upsert': False, 'after': rng.random() < 0.5,
+                            'arg': {'$set': {'t': 'y'}}})
+            if rng.random() < 0.4:
+                ops.append({'op': 'find', 'filter': {}, 'proj': None, 'sort': [], 'skip': 0, 'limit': 0})
+        return {'ops': ops, 'pre5': False}
+
     def gen_case(self, rng, i, tier):
+        if rng.random() < 0.1:
+            return self.gen_focus_proj_ops(rng)
         n = rng.randint(4, 10)
         ops = hist.gen_history(rng, n, weights=WEIGHTS)
         docs = [{'_id': k, 'a': [1], 'b': {'z': 1}} for k in (1, 2, 3)]
